@@ -1555,7 +1555,21 @@ impl<'ast> LoweringContext<'ast> {
         } else {
             SuccessType::Unit
         };
-        match return_type.unwrap_or(&ast::TypeName::Unit) {
+        let return_type = return_type.unwrap_or(&ast::TypeName::Unit);
+        // The string written to a DiplomatWrite *is* the method's success value: there is no way to return another one
+        // next to it (and no backend would pass the write parameter if we let this through)
+        let success_ty = match return_type {
+            ast::TypeName::Result(ok_ty, ..) => ok_ty.as_ref(),
+            ast::TypeName::Option(value_ty, _) => value_ty.as_ref(),
+            ty => ty,
+        };
+        if takes_write && !matches!(success_ty, ast::TypeName::Unit) {
+            self.errors.push(LoweringError::Other(format!(
+                "Methods taking a DiplomatWrite must return (), Option<()> or Result<(), E>, found {return_type}"
+            )));
+            return Err(());
+        }
+        match return_type {
             ast::TypeName::Result(ok_ty, err_ty, _) => {
                 let ok_ty = match ok_ty.as_ref() {
                     ast::TypeName::Unit => Ok(write_or_unit),
